@@ -455,6 +455,9 @@ func (g *egen) dest(self string) string {
 
 func (g *egen) content(limit int) string {
 	words := []string{"x", "ok", "hello", "lorem ipsum", "0123456789", "a\nbb\nccc", "one\ntwo\nthree\nfour\nfive", "", "blåbærsyltetøy", "ñandú\n日本語", "ééééééééééééééééééééééééé"}
+	if limit > 0 && limit < 50 && g.r.Intn(60) == 0 {
+		return strings.Repeat("q", 65536+g.r.Intn(limit+1)) // length mod 2^16 <= limit
+	}
 	switch g.r.Intn(12) {
 	case 0:
 		if limit > 0 {
@@ -595,6 +598,9 @@ func genApp(r *rand.Rand) genOut {
 				if r.Intn(4) > 0 {
 					add("MAP "+s, line(vm.MAP, []string{s}, nil, nil))
 					mapped = append(mapped, s)
+					if r.Intn(5) == 0 { // MAP then RELOAD in the same run: the page must show the new value
+						add("RELOAD "+s, line(vm.RELOAD, []string{s}, nil, nil))
+					}
 				}
 			case k < 38:
 				s := pick(r, g.syms)
@@ -865,6 +871,14 @@ var engineCorpus = []corpusCase{
 		fn: map[string][]eFres{"sk": st1("one\ntwo\nthree\nfour\nfive\nsix")}, cfg: eCfg{FlagCount: 1, Out: 20}, inputs: []string{"", "x", "y"}},
 	{name: "long-and-malformed", nodes: [][3]string{{"root", "HALT; INCMP foo 1", "root"}, {"foo", "HALT; INCMP _ 0", "foo"}, {"_catch", "HALT; INCMP _ *", "catch"}},
 		cfg: eCfg{FlagCount: 1}, inputs: []string{"", strings.Repeat("!", 300), "1"}},
+	{name: "map-then-reload", nodes: [][3]string{{"root", "LOAD aa 20; HALT; INCMP foo 1", "root"}, {"foo", "MAP aa; RELOAD aa; HALT; INCMP _ 0", "foo {{.aa}}"}, {"_catch", "HALT; INCMP _ *", "catch"}},
+		fn: map[string][]eFres{"aa": []eFres{{Content: "call1"}, {Content: "call2"}, {Content: ""}}}, cfg: eCfg{FlagCount: 1}, inputs: []string{"", "1", "0", "1"}},
+	{name: "reload-over-capacity", nodes: [][3]string{{"root", "LOAD aa 0; MAP aa; HALT; INCMP end1 1", "root {{.aa}}"}, {"end1", "RELOAD aa; HALT", "end {{.aa}}"}, {"_catch", "HALT; INCMP _ *", "catch"}},
+		fn: map[string][]eFres{"aa": []eFres{{Content: "12345678"}, {Content: "this does not fit the cache"}, {Content: "z"}}}, cfg: eCfg{FlagCount: 1, CacheSize: 16}, inputs: []string{"", "1", "", "1", ""}},
+	{name: "sink-name-reused", nodes: [][3]string{{"root", "HALT; INCMP foo 1; INCMP bar 2", "root"}, {"foo", "LOAD xx 0; MAP xx; HALT; INCMP _ 0", "foo {{.xx}}"}, {"bar", "LOAD xx 60; MAP xx; HALT; INCMP _ 0", "bar {{.xx}}"}, {"_catch", "HALT; INCMP _ *", "catch"}},
+		fn: map[string][]eFres{"xx": st1("alpha\nbeta\ngamma")}, cfg: eCfg{FlagCount: 1, Out: 100}, inputs: []string{"", "1", "0", "2", "0"}},
+	{name: "oversize-64k", nodes: [][3]string{{"root", "LOAD aa 10; MAP aa; HALT; INCMP foo 1", "root {{.aa}}"}, {"foo", "HALT; INCMP _ 0", "foo"}, {"_catch", "HALT; INCMP _ *", "catch"}},
+		fn: map[string][]eFres{"aa": []eFres{{Content: strings.Repeat("q", 65546)}, {Content: "ok"}}}, cfg: eCfg{FlagCount: 1}, inputs: []string{"", "1"}},
 	{name: "first-terminate", nodes: [][3]string{{"root", "HALT; INCMP foo 1", "root"}, {"foo", "HALT; INCMP _ 0", "foo"}, {"_catch", "HALT; INCMP _ *", "catch"}},
 		cfg: eCfg{FlagCount: 1, First: []eFres{{Content: "hello"}, {Content: "blocked", Set: []uint32{6}}, {Content: "again"}}}, inputs: []string{"", "1", "0", "!bad", "1"}},
 	{name: "first-long-exit", nodes: [][3]string{{"root", "HALT; INCMP foo 1", "root"}, {"foo", "HALT; INCMP _ 0", "foo"}, {"_catch", "HALT; INCMP _ *", "catch"}},
